@@ -6,8 +6,8 @@ SPEC = dict(
     level="proof",
     design_ref="DESIGN.md §5 C14",
     technique="Lean 4 compositional contract proofs (client honours the Sink contract => adaptor honours it downstream and delivers spec(items)) over arbitrary inner sinks + line-by-line correspondence of every adaptor with the real sinktools code over scripted protocol-checking sinks",
-    level_text=("PARTIAL. Model: every sinktools adaptor transcribed from its impl Sink (map, filter, filter_map, inspect, for_each/try_for_each, "
-                "flat_map/flatten with the buffered iterator, unzip, demux_var, demux_map, demux_map_lazy, LazySink / LazySource / "
+    level_text=("PARTIAL (one clause, for one adaptor: F5). Model: every sinktools adaptor transcribed from its impl Sink (map, filter, filter_map, inspect, "
+                "for_each/try_for_each, flat_map/flatten with the buffered iterator, unzip, demux_var, demux_map, demux_map_lazy, LazySink / LazySource / "
                 "LazySinkSource as explicit Uninit|Thunkulating|Done machines with the init future and the stream as scripts, SendIter / "
                 "SendStream). Proved for ALL inner sinks (arbitrary state machines = every readiness pattern) and ALL client call sequences "
                 "that honour the Sink contract: map_delivers_in_order, filter_delivers_in_order, filterMap_delivers_in_order, inspect_trace, "
@@ -15,18 +15,25 @@ SPEC = dict(
                 "'Sink not ready' assert, empty buffer after a Ready flush/close), unzip_routes_in_order, demuxVar_routes_in_order, "
                 "demuxMap_routes_in_order (each sink gets exactly the items addressed to its index/key, in order, once, contract kept), "
                 "lazySink_no_item_lost_init_once (inner contract kept, no item lost before/during init, init at most once, 'not ready' panic "
-                "unreachable), lssSink_simulates_lazySink (the sink half of LazySinkSource = LazySink as long as the source half does not interfere), "
-                "lazySource_yields_stream_in_order, sendIter_is_polite_client, sendStream_is_polite_client. Refuted on the code as it is (known findings): "
-                "lazySinkSource_send_after_ready_refuted (F4), lazySinkSource_inner_contract_refuted (F4b), lazyDemux_send_after_ready_refuted "
-                "(F5). NOT proved, only modelled and tied by correspondence + oracle: demux_map_lazy for existing keys, "
-                "LazySinkSource under arbitrary interleavings of the two halves after initialisation, for_each/try_for_each (trivial), stacked chains (the theorems are compositional "
-                "in form but the composite statement is not derived). Tie: 16 pipeline kinds built with the real SinkBuild API over scripted "
-                "downstream sinks; each client call's answer and every downstream call (ready/send/flush/close with answers) are diffed "
-                "against the compiled model; downstream sinks check the contract themselves; order / exactly-once / no-loss-after-flush / "
-                "init-once are judged by an independent oracle."),
+                "unreachable), lazySinkSource_interleaved_no_item_lost_init_once (LazySinkSource with BOTH halves under every interleaving of "
+                "sink-half calls and source-half polls, before/during/after initialisation: inner contract kept, no item lost, init at most once "
+                "whichever half starts it, the 'LazySinkHalf not ready' panic unreachable, nothing held back after a Ready poll, the source half "
+                "yields the stream in order), lazySource_yields_stream_in_order, sendIter_is_polite_client, sendStream_is_polite_client, "
+                "lazyDemux_routes_in_order_partial (demux_map_lazy, new AND existing keys: one sink per key, each sink gets exactly the items of "
+                "its key in order once, nothing addressed to a key is dropped, and every sink's call sequence honours the contract from its "
+                "second call on; the full clause LazyDemuxContractStatement fails on the very first start_send of each freshly created sink = "
+                "known finding F5, lazyDemux_send_after_ready_refuted). Findings F4 / F4b (LazySinkHalf::start_send after a source poll) were "
+                "repaired in /repo (cb04467b964); the model follows the repaired code and the refutations are kept against the old start_send "
+                "(lazySinkSource_send_after_ready_refuted_before_fix, lazySinkSource_inner_contract_refuted_before_fix). NOT proved, only "
+                "modelled and tied by correspondence + oracle: for_each/try_for_each (trivial), the stacked 3-stage chain (the theorems are "
+                "compositional in form — any inner sink, contract in => contract out — but the composite statement is not derived). Tie: 16 "
+                "pipeline kinds built with the real SinkBuild API over scripted downstream sinks; each client call's answer and every downstream "
+                "call (ready/send/flush/close with answers) are diffed against the compiled model; bounded-exhaustive readiness placements for "
+                "the single-sink kinds and bounded-exhaustive interleavings of the two LazySinkSource halves (all words over ready/send/next/flush); "
+                "downstream sinks check the contract themselves; order / exactly-once / no-loss-after-flush / init-once are judged by an independent oracle."),
     level_note=("Trusted: Lean kernel; Poll::Ready(Err) paths are not modelled (scripted sinks never fail); Pin/pin_project erased; HashMap as "
                 "association list (iteration order not observable per sink); MultiWaker of LazySinkSource not modelled; closures are fixed "
-                "functions in the correspondence, arbitrary in the theorems."),
+                "functions in the correspondence, arbitrary in the theorems; release build (debug_assert!(buf.is_none()) in the lazy sinks is off)."),
     trusted_base=["error paths (Poll::Ready(Err)) of all adaptors: not modelled", "LazySinkSource MultiWaker wake fan-out: not modelled"],
     assumptions=["inner sinks and init futures do not fail", "clients honour the Sink contract (theorems state exactly this hypothesis)"],
 )
